@@ -22,6 +22,8 @@ Decided (writer/reader agreement and who-produces, on ast normal forms):
   C11.sentinel-guard  every date constructor that takes month and day (but not the year) from one date object, and every
                  .replace(year/month/day=..) on a local that may hold a safe_create* result, is dominated by a validity
                  test of that object (is_valid_datetime, ==/!= min_value, or an ordering that only a real date satisfies).
+  C11.timex-value  same tabulation (c07.compose_table): the hour / minute / second in the composed TIMEX are those of the emitted
+                 value, with exactly the fields the time entity's own TIMEX had.
   C11.range-order in a date-range parser that merges two parsed dates, the statements adjusting (future/past, begin/end)
                  are interpreted on every position of two year-less endpoints and the reference in a small model year:
                  begin <= end must hold afterwards in both resolutions.
@@ -1156,6 +1158,44 @@ def rule_sentinel(chk, idx):
 
 
 # ---------------------------------------------------------------------------------------------------
+# C11.timex-value: the composed '<date> at <time>' TIMEX and value agree on the time of day
+
+def rule_timex_value(chk, idx):
+    from .c07 import compose_table, composing_functions, timex_time_part
+    rid = 'C11.timex-value'
+    chk.rule(rid, 'date+time composition, tabulated (day-part shift scenarios included): the hour / minute / second written into the '
+                  'TIMEX are those of the emitted value, and the fields present are those of the time entity\'s own TIMEX', floor=2)
+    n = 0
+    for c, name, fn in composing_functions(idx):
+        cases = compose_table(idx, c.mod, c, fn, make_evalc(idx, c.mod, c))
+        if cases is None:
+            continue
+        n += 1
+        chk.consulted(c.mod.path)
+        bad = []
+        for k in cases:
+            if 'raises' in k:
+                continue            # reported by C07.compose-value
+            tp = timex_time_part(k['timex'])
+            fv = k['future']
+            if tp is None or not hasattr(fv, 'hour'):
+                bad.append('%s marker, time %s: TIMEX %r / value %r not comparable' % (k['scenario'], k['time'], k['timex'], fv))
+                continue
+            hour, rest = tp
+            src_rest = k['time'][3:]
+            want_rest = ''.join(':%02d' % x for x in ([fv.minute, fv.second][:src_rest.count(':')]))
+            if hour != fv.hour or rest != want_rest:
+                bad.append('%s marker, time entity %s: TIMEX %s but value %s' % (k['scenario'], k['time'], k['timex'],
+                                                                               fv.strftime('%H:%M:%S')))
+        chk.judge(not bad, rid, c.mod.path, '%s.%s' % (c.name, name), '%d compositions interpreted; disagreeing: %s'
+                  % (len(cases), '; '.join(bad[:2]) if bad else 'none'),
+                  'the TIMEX of the composed date-time does not carry the time of its value: %s%s'
+                  % ('; '.join(bad[:3]), ' ... (%d cases)' % len(bad) if len(bad) > 3 else ''), fn.lineno)
+    if n < 2:
+        raise AnalysisError('only %d date+time composing functions could be tabulated' % n)
+
+
+# ---------------------------------------------------------------------------------------------------
 
 def run(chk):
     chk.explanation = ('writer/reader agreement between the 22 date-time parser classes and the merged parser (types dispatched, '
@@ -1175,6 +1215,7 @@ def run(chk):
     rule_pm_range(chk, idx)
     rule_range_order(chk, idx)
     rule_sentinel(chk, idx)
+    rule_timex_value(chk, idx)
     chk.assume('extractor results carry the type given by extractor_type_name or by the explicit third argument of '
                'merge_all_tokens; DateTimeParseResult(source) copies source.type, which each parser checks against its '
                'parser_type_name; a datetime object always formats to a valid calendar date / clock time')
